@@ -134,7 +134,6 @@ package dawn
 //   tdata(t)    - the stamp in the record t was loaded with
 //@ specfn restamps(value) bool
 //@ specfn tdata(value) string
-//@ specfn existed(string) bool
 //@ smt <<<
 //@ (declare-fun restamps (Iface) Bool)
 //@ (declare-fun tdata (Iface) Str)
@@ -200,8 +199,9 @@ package dawn
 // A function target's stamp names the execution: it differs from the stamp the target was loaded
 // with (and from every stamp that existed before - time-based identifiers are unique: the trusted
 // contract of newStamp; that a loaded record holds a stamp that existed is an assumption).
+//@ axiom fresh-identifiers-are-unique: forall n: int, e: string, s: string :: (fresh_id(n) && existed(s)) ==> cat(cat(fmtint(n, 36), ":"), e) != s
 //@ func dawn.newStamp
-//@   trusted
+//@   ensures prefixed-by-a-fresh-identifier: exists n: int :: fresh_id(n) && result == cat(cat(fmtint(n, 36), ":"), env)
 //@   ensures unique: forall s: string :: existed(s) ==> result != s
 //@ func (*dawn.function).evaluate
 //@   requires f != nil && f.out != nil
